@@ -4,6 +4,7 @@
 package fw
 
 import (
+	"io"
 	"bytes"
 	"fmt"
 	"net/http"
@@ -290,10 +291,16 @@ func (f *FW) Run(hc *http.Client, nonce string, fs []Fault, path string, body []
 	if body == nil {
 		body = []byte(fmt.Sprintf(`{"model":"mall","nonce":%q}`, nonce))
 	}
-	req, _ := http.NewRequest("POST", f.W.Base+path+"?nonce="+nonce, bytes.NewReader(body))
+	var rdr io.Reader = bytes.NewReader(body)
+	if hdr["X-Verif-Upload"] == "chunked" {
+		rdr = client.ChunkedReader{R: bytes.NewReader(body)} // no declared length
+	}
+	req, _ := http.NewRequest("POST", f.W.Base+path+"?nonce="+nonce, rdr)
 	req.Header.Set("Content-Type", "application/json")
 	for k, v := range hdr {
-		req.Header.Set(k, v)
+		if k != "X-Verif-Upload" {
+			req.Header.Set(k, v)
+		}
 	}
 	res := client.Do(hc, req)
 	for _, b := range f.B {
